@@ -289,6 +289,10 @@ Fixpoint awp {X} (m : prog X) (Q : wstate -> X -> Prop) (E : wstate -> exn -> Pr
   | Do o k => A s o /\ forall r, valid_res o r = true -> forall s', wstep s o r s' -> awp (k r) Q E s'
   end.
 
+Lemma awp_ret {X} (a : X) (Q : wstate -> X -> Prop) (E : wstate -> exn -> Prop) s : Q s a -> awp (Ret a) Q E s.
+Proof. intros H. exact H. Qed.
+Lemma awp_throw {X} e (Q : wstate -> X -> Prop) (E : wstate -> exn -> Prop) s : E s e -> awp (Throw e) Q E s.
+Proof. intros H. exact H. Qed.
 Lemma awp_mono {X} (m : prog X) : forall (Q Q' : wstate -> X -> Prop) (E E' : wstate -> exn -> Prop) s,
   (forall s a, Q s a -> Q' s a) -> (forall s e, E s e -> E' s e) -> awp m Q E s -> awp m Q' E' s.
 Proof.
